@@ -239,7 +239,8 @@ fn run_cmd(a: &[String]) -> i32 {
         if cases == 0 {
             continue;
         }
-        let nshards = (cases.div_ceil(8)).clamp(1, maxpar as u32);
+        // few (= expensive) cases: one per worker
+        let nshards = if cases <= 64 { cases.clamp(1, maxpar as u32) } else { (cases.div_ceil(8)).clamp(1, maxpar as u32) };
         for shard in 0..nshards {
             jobs.push(Job { sub: s.name().to_string(), shard, nshards, out: tmp.join(format!("{}-{}.json", s.name(), shard)) });
         }
